@@ -7,7 +7,7 @@ for f in sorted(glob.glob('/verif/seeded/*/meta.json')):
     now="; ".join("%s %s"%(c,"DETECTED" if v["exit"]==1 else "silent") for c,v in m.get("checks_run_quick_tier",{}).items())
     rows.append((sid,m.get("needs_to_manifest","").replace("|","\\|"),m.get("first_run","").replace("|","\\|"),now,m.get("existing_suite_passes_with_patch")))
 def rnd(s):
-    return {"":1,"b":2,"c":3,"d":4,"e":5,"f":5,"g":6,"h":6}[s[3:]]
+    return {"":1,"b":2,"c":3,"d":4,"e":5,"f":5,"g":6,"h":6,"i":7,"j":7}[s[3:]]
 out=open('/verif/seeded/INDEX.md','w')
 out.write("""# Independently written property-breaking changes (`seeded/<id>/`)
 
@@ -27,18 +27,22 @@ change seeded before for that property (the earlier ideas were named to the sub-
 `C..f`: two independent changes per property from one sub-agent, forty in all): as round 4, with the
 hint to read constructors, configuration parsing and the wiring between components as well. Round 6 (`C..g`,
 `C..h`, forty): as round 5, at least one of each pair depending on timing, ordering or a failure at a particular moment.
+Round 7 (`C..i`, `C..j`, forty): as round 6, one of each pair depending on timing / cancellation / a failure at a particular
+moment and the other on an unusual input or combination of configuration options. For this round the `first run` column was
+measured with the checks of the commit that preceded the round (8289a43), re-run against every patched tree, because several
+checks were extended while the validation of the round was still running.
 
 `silent` marks a check that was run in addition and is not expected to fire (the clause the change
 breaks is decided by the other check listed), or - for C11b - the quick tier.
 
 """)
-for r in (1,2,3,4,5,6):
+for r in (1,2,3,4,5,6,7):
     out.write("## Round %d\n\n| id | what it needs to manifest | first run | now (quick tier) |\n|---|---|---|---|\n"%r)
     for sid,needs,first,now,suite in rows:
         if rnd(sid)==r:
             out.write("| %s | %s | %s | %s |\n"%(sid,needs,first,now))
     out.write("\n")
-tot={r:[0,0] for r in (1,2,3,4,5,6)}
+tot={r:[0,0] for r in (1,2,3,4,5,6,7)}
 for sid,needs,first,now,suite in rows:
     tot[rnd(sid)][0]+=1
     if first.startswith("DETECTED"): tot[rnd(sid)][1]+=1
